@@ -53,7 +53,7 @@ fn decode(tape: &[u32]) -> Case {
     let with_val = !t.chance(1, 5);
     // early stopping fires in part of the cases (tolerance 1 always stops after epoch 2)
     let stop_tol = [1000, 1000, 1, 2, 3][t.pick(5)];
-    Case { spec, epochs, with_val, batch: t.usize(1, 4), ntrain: t.usize(1, 6), nval: t.usize(1, 5), wseed: t.raw(), dseed: t.raw(), stop_tol }
+    Case { spec, epochs, with_val, batch: t.usize(1, 4), ntrain: t.usize(1, 6), nval: if t.chance(1, 12) { t.usize(65, 150) } else { t.usize(1, 5) }, wseed: t.raw(), dseed: t.raw(), stop_tol }
 }
 
 fn no_dropout(spec: &NetSpec) -> NetSpec {
@@ -219,7 +219,7 @@ impl Prop for C09 {
         Some(2)
     }
     fn rule(&self) -> String {
-        "tape-decoded layer sequence (1-4 generated layers of any kind incl. feedback blocks, ending in a dense layer, plus 0-2 further dense layers) with dropout (rate 0.05..0.95) on any subset incl. layers inside blocks (at least one), 1-4 epochs, with (4/5) or without validation data, early-stopping tolerance in {1000, 1, 2, 3} (so early stops occur), 1-6 training and 1-5 validation samples, batch 1-4, SGD lr 1/32, MSE. Oracle: the dropout-free twin built from the same specification: (1) after learn() returns, copy the weights into the twin: predict and validate agree bitwise; (2) for e = 1..E a fresh network trained exactly e epochs reports as its last validation loss / accuracy what the twin's validate gives on those weights (bitwise); (3) a never-trained network predicts like the twin. Non-trivial: some dropout mask (recomputed with the public generator, seed 12345) zeroes >= 1 element, and validation data present. Distinct = (architecture with dropout pattern, epochs, validation y/n).".into()
+        "tape-decoded layer sequence (1-4 generated layers of any kind incl. feedback blocks, ending in a dense layer, plus 0-2 further dense layers) with dropout (rate 0.05..0.95) on any subset incl. layers inside blocks (at least one), 1-4 epochs, with (4/5) or without validation data, early-stopping tolerance in {1000, 1, 2, 3} (so early stops occur), 1-6 training and 1-5 validation samples (one case in twelve: 65-150 validation samples), batch 1-4, SGD lr 1/32, MSE. Oracle: the dropout-free twin built from the same specification: (1) after learn() returns, copy the weights into the twin: predict and validate agree bitwise; (2) for e = 1..E a fresh network trained exactly e epochs reports as its last validation loss / accuracy what the twin's validate gives on those weights (bitwise); (3) a never-trained network predicts like the twin. Non-trivial: some dropout mask (recomputed with the public generator, seed 12345) zeroes >= 1 element, and validation data present. Distinct = (architecture with dropout pattern, epochs, validation y/n).".into()
     }
     fn run_case(&self, tape: &[u32], ev: &mut CaseEv) -> CheckResult {
         check(&decode(tape), ev)
